@@ -590,6 +590,26 @@ is_default_constructible(CPPVisibility min_vis) const {
     if (!instance->_type->is_default_constructible()) {
       return false;
     }
+
+    // A const member without an initializer deletes the implicit default
+    // constructor, unless its class has a user-provided default constructor.
+    CPPType *member_type = instance->_type;
+    while (member_type->as_typedef_type() != nullptr) {
+      member_type = member_type->as_typedef_type()->_type;
+    }
+    if (member_type->as_const_type() != nullptr) {
+      CPPType *unqual = member_type->remove_cv();
+      while (unqual->as_typedef_type() != nullptr) {
+        unqual = unqual->as_typedef_type()->_type;
+      }
+      CPPStructType *member_struct = unqual->as_struct_type();
+      CPPInstance *member_ctor = (member_struct != nullptr) ?
+        member_struct->get_default_constructor() : nullptr;
+      if (member_ctor == nullptr ||
+          (member_ctor->_storage_class & CPPInstance::SC_defaulted) != 0) {
+        return false;
+      }
+    }
   }
 
   return true;
